@@ -193,11 +193,12 @@ static mm_result mm_mk_result(size_t a, size_t b) { mm_result r; r.rows = a; r.c
 MM_STREAM = r'''
 /* ------------------------------------------------------------------- abstract entry stream (A-mmstream, TRUSTED)
  * No amgcl logic here: only what the stream expressions of mm.hpp observe.                                  */
-typedef struct { Idx i, j; Val v; unsigned char ntok; } mm_entry;
 typedef struct mm_reader {
   _Bool sparse, symmetric, complex_, integer_;   /* banner flags stored by the constructor                   */
   _Bool hdr_ok; ptrdiff_t hn, hm; size_t hnnz;   /* size line (kept in `line`): parses as "n m nnz" or not   */
-  size_t nlines; mm_entry e[ZMAX];               /* the data lines that follow                               */
+  size_t nlines;                                 /* the data lines that follow: line k = tokens ei[k] ej[k] ev[k], */
+  Idx ei[ZMAX], ej[ZMAX]; Val ev[ZMAX];          /* of which the first entok[k] parse (parallel arrays: no pointer */
+  unsigned char entok[ZMAX];                     /* into the middle of the object is ever formed)                  */
   size_t next;                                   /* std::ifstream f: index of the next data line             */
   ptrdiff_t cur;                                 /* std::string line: -1 size line, k >= 0 data line k, -2 empty (failed getline) */
 } mm_reader;
@@ -225,11 +226,11 @@ static _Bool mm_extract_idx2(mm_iss *is, const mm_reader *R, Idx *a, Idx *b)
 {
   MODEL(is->line >= 0 && is->line < ZMAX && is->tok == 0, "two indices are extracted from the start of a data line only");
   if (is->fail) return 0;
-  const mm_entry *e = &R->e[is->line];
-  if (e->ntok < 1) { *a = 0; is->fail = 1; return 0; }
-  *a = e->i; is->tok = 1;
-  if (e->ntok < 2) { *b = 0; is->fail = 1; return 0; }
-  *b = e->j; is->tok = 2;
+  const ptrdiff_t k = is->line;
+  if (R->entok[k] < 1) { *a = 0; is->fail = 1; return 0; }
+  *a = R->ei[k]; is->tok = 1;
+  if (R->entok[k] < 2) { *b = 0; is->fail = 1; return 0; }
+  *b = R->ej[k]; is->tok = 2;
   return 1;
 }
 /* s >> x  (value) in boolean context; the token is left in s->last */
@@ -237,9 +238,9 @@ static _Bool mm_extract_val(mm_iss *s, const mm_reader *R)
 {
   MODEL(s->line >= 0 && s->line < ZMAX && (s->tok == 2 || s->fail), "a value is extracted after the two indices of a data line only");
   if (s->fail) return 0;
-  const mm_entry *e = &R->e[s->line];
-  if (e->ntok < 3) { s->last = 0; s->fail = 1; return 0; }
-  s->last = e->v; s->tok = 3;
+  const ptrdiff_t k = s->line;
+  if (R->entok[k] < 3) { s->last = 0; s->fail = 1; return 0; }
+  s->last = R->ev[k]; s->tok = 3;
   return 1;
 }
 #define MM_EXTRACT_VAL(s, R, x) (mm_extract_val(s, R) ? ((x) = (s)->last, (_Bool)1) : (_Bool)0)
@@ -307,9 +308,9 @@ MM_SPEC = r'''
 /* entry k lies inside the n x m matrix (symmetric storage: a square matrix) */
 static _Bool entry_wf(const mm_reader *F, size_t k)
 {
-  const mm_entry *e = &F->e[k];
-  if (!(e->i >= 1 && (ptrdiff_t)e->i <= F->hn && e->j >= 1 && (ptrdiff_t)e->j <= F->hm)) return 0;
-  if (F->symmetric && !((ptrdiff_t)e->j <= F->hn && (ptrdiff_t)e->i <= F->hm)) return 0;
+  const ptrdiff_t i = (ptrdiff_t)F->ei[k], j = (ptrdiff_t)F->ej[k];
+  if (!(i >= 1 && i <= F->hn && j >= 1 && j <= F->hm)) return 0;
+  if (F->symmetric && !(j <= F->hn && i <= F->hm)) return 0;
   return 1;
 }
 static _Bool entries_wf(const mm_reader *F)
@@ -323,10 +324,9 @@ static int spec_count(const mm_reader *F, ptrdiff_t r, ptrdiff_t c, Val v, _Bool
 {
   int cnt = 0;
   for (size_t k = 0; k < ZMAX; ++k) if (k < F->hnnz) {
-    const mm_entry *e = &F->e[k];
-    ptrdiff_t i = (ptrdiff_t)e->i - 1, j = (ptrdiff_t)e->j - 1;
-    if (i == r && (any_cv || (j == c && e->v == v))) cnt++;
-    if (F->symmetric && i != j && j == r && (any_cv || (i == c && e->v == v))) cnt++;
+    ptrdiff_t i = (ptrdiff_t)F->ei[k] - 1, j = (ptrdiff_t)F->ej[k] - 1;
+    if (i == r && (any_cv || (j == c && F->ev[k] == v))) cnt++;
+    if (F->symmetric && i != j && j == r && (any_cv || (i == c && F->ev[k] == v))) cnt++;
   }
   return cnt;
 }
@@ -366,14 +366,14 @@ static void mirror_stream(const mm_reader *F)
   w_sparse = F->sparse; w_sym = F->symmetric; w_complex = F->complex_; w_integer = F->integer_;
   w_valc = g_val_is_complex; w_vali = g_val_is_integral; w_hdr_ok = F->hdr_ok;
   w_n = (int)F->hn; w_m = (int)F->hm; w_nnz = (unsigned)F->hnnz; w_nlines = (unsigned)F->nlines;
-  for (size_t k = 0; k < ZMAX; ++k) { w_ei[k] = (int)F->e[k].i; w_ej[k] = (int)F->e[k].j; w_ev[k] = (unsigned)F->e[k].v; w_entok[k] = F->e[k].ntok; }
+  for (size_t k = 0; k < ZMAX; ++k) { w_ei[k] = (int)F->ei[k]; w_ej[k] = (int)F->ej[k]; w_ev[k] = (unsigned)F->ev[k]; w_entok[k] = F->entok[k]; }
 }
 static _Bool stream_same(const mm_reader *A, const mm_reader *B)
 {
   if (A->sparse != B->sparse || A->symmetric != B->symmetric || A->complex_ != B->complex_ || A->integer_ != B->integer_) return 0;
   if (A->hdr_ok != B->hdr_ok || A->hn != B->hn || A->hm != B->hm || A->hnnz != B->hnnz || A->nlines != B->nlines) return 0;
   for (size_t k = 0; k < ZMAX; ++k)
-    if (A->e[k].i != B->e[k].i || A->e[k].j != B->e[k].j || A->e[k].v != B->e[k].v || A->e[k].ntok != B->e[k].ntok) return 0;
+    if (A->ei[k] != B->ei[k] || A->ej[k] != B->ej[k] || A->ev[k] != B->ev[k] || A->entok[k] != B->entok[k]) return 0;
   return 1;
 }
 '''
@@ -391,7 +391,7 @@ void h_mm_sparse(void)
   /* the bound */
   REQUIRES(F.hn >= N_LO && F.hn <= NMAX && F.hm >= 0 && F.hm <= NMAX && F.hnnz <= ZMAX && F.nlines <= ZMAX);
   for (size_t k = 0; k < ZMAX; ++k)
-    REQUIRES(F.e[k].ntok <= 3 && F.e[k].i >= IDX_LO && F.e[k].i <= IDX_HI && F.e[k].j >= IDX_LO && F.e[k].j <= IDX_HI);
+    REQUIRES(F.entok[k] <= 3 && F.ei[k] >= IDX_LO && F.ei[k] <= IDX_HI && F.ej[k] >= IDX_LO && F.ej[k] <= IDX_HI);
   /* what the constructor guarantees: a data type is exactly one of real / complex / integer; `line` is the size line */
   REQUIRES(!(F.complex_ && F.integer_));
   REQUIRES(!(g_val_is_complex && g_val_is_integral));
@@ -429,7 +429,7 @@ void h_mm_sparse(void)
   const _Bool kind_ok = F.sparse && F.complex_ == g_val_is_complex && F.integer_ == g_val_is_integral;
   const _Bool head_ok = kind_ok && F.hdr_ok;
   _Bool lines_ok = F.nlines >= F.hnnz;
-  for (size_t k = 0; k < ZMAX; ++k) if (k < F.hnnz && k < F.nlines && F.e[k].ntok < 3) lines_ok = 0;
+  for (size_t k = 0; k < ZMAX; ++k) if (k < F.hnnz && k < F.nlines && F.entok[k] < 3) lines_ok = 0;
   ENSURES(F.sparse || (t1 && t2), "a file that is not a sparse (coordinate) matrix makes the reader throw");
   ENSURES(!F.sparse || kind_ok || (t1 && t2), "a wrong value kind (real / complex / integer) makes the reader throw");
   ENSURES(!kind_ok || F.hdr_ok || (t1 && t2), "a size line that does not parse makes the reader throw");
@@ -469,10 +469,10 @@ void h_mm_sparse(void)
       if (rowlen) {
         /* every entry the file denotes, in both orientations, appears with its multiplicity */
         for (size_t k = 0; k < ZMAX; ++k) if (k < F.hnnz) {
-          ptrdiff_t i = (ptrdiff_t)F.e[k].i - 1, j = (ptrdiff_t)F.e[k].j - 1;
-          if (i >= rb && i < re && res_count(&ptr2, &col2, &val2, (size_t)(i - rb), j, F.e[k].v) != spec_count(&F, i, j, F.e[k].v, 0)) members = 0;
+          ptrdiff_t i = (ptrdiff_t)F.ei[k] - 1, j = (ptrdiff_t)F.ej[k] - 1;
+          if (i >= rb && i < re && res_count(&ptr2, &col2, &val2, (size_t)(i - rb), j, F.ev[k]) != spec_count(&F, i, j, F.ev[k], 0)) members = 0;
           if (F.symmetric && i != j && j >= rb && j < re &&
-              res_count(&ptr2, &col2, &val2, (size_t)(j - rb), i, F.e[k].v) != spec_count(&F, j, i, F.e[k].v, 0)) members = 0;
+              res_count(&ptr2, &col2, &val2, (size_t)(j - rb), i, F.ev[k]) != spec_count(&F, j, i, F.ev[k], 0)) members = 0;
         }
         ENSURES(members, "expansion: every stored entry (i,j,v) appears in row i with column j and value v and, for symmetric storage and i != j, also in row j with column i and value v, with the multiplicity of the file");
       }
